@@ -24,6 +24,11 @@ type c06Step struct {
 	Status    byte    `json:"status"`
 	N         int     `json:"n"` // size of the variable part
 	Tile      model.B `json:"tile"`
+	// FlagsX / MinorX: this request's flag octet is the case's XOR FlagsX, its minor version flipped if
+	// MinorX (a later request of an exchange need not repeat the first one's header): the reply mirrors
+	// the request it answers
+	FlagsX byte `json:"flags_x,omitempty"`
+	MinorX bool `json:"minor_x,omitempty"`
 }
 
 type c06Case struct {
@@ -100,6 +105,10 @@ func genC06(t *rapid.T) c06Case {
 		}
 		s.N = rapid.OneOf(rapid.IntRange(0, 40), rapid.SampledFrom([]int{0, 1, 255, 256, 4096, 65500})).Draw(t, "n")
 		s.FailFirst = rapid.SampledFrom([]string{"", "", "", "", "raw-error", "long-arg", "restart-error"}).Draw(t, "fail_first")
+		if i > 0 && rapid.IntRange(0, 2).Draw(t, "header_changes") == 0 {
+			s.FlagsX = rapid.OneOf(rapid.SampledFrom([]byte{0, 1, 4, 5}), rapid.Byte()).Draw(t, "flags_x")
+			s.MinorX = rapid.Bool().Draw(t, "minor_x")
+		}
 		if s.Kind == "raw" && rapid.IntRange(0, 5).Draw(t, "rawmax") == 0 {
 			s.N = rapid.SampledFrom([]int{65535, 65536}).Draw(t, "rawn")
 		}
@@ -148,7 +157,13 @@ func runC06(t failer, c c06Case) {
 	}()
 	seq := c.Seq0
 	for i, s := range c.Steps {
-		rh := model.Header{Version: 0xc0 | c.Minor, Type: c.Type, Seq: seq, Flags: c.Flags, Session: c.Session}
+		rh := model.Header{Version: 0xc0 | c.Minor, Type: c.Type, Seq: seq, Flags: c.Flags ^ s.FlagsX, Session: c.Session}
+		if s.MinorX {
+			rh.Version ^= 1
+		}
+		if s.FlagsX != 0 || s.MinorX {
+			ev.Class("later-request-changes-flags-or-version")
+		}
 		wire := model.Frame(c.Secret, rh, consistentBody(c.Type, 7, []byte{1}))
 		pkts, rest, closed, err := d.send(wire)
 		if err != nil {
@@ -186,12 +201,12 @@ func runC06(t failer, c c06Case) {
 			fail("header-mismatch", "step %d: reply header %+v, expected %+v (request %+v)", i, got.H, want, rh)
 		}
 		wantBody := clear
-		if c.Flags&model.FlagUnencrypted == 0 {
+		if rh.Flags&model.FlagUnencrypted == 0 {
 			wantBody = model.Obfuscate(c.Secret, want, clear)
 		}
 		if !bytes.Equal(got.Body, wantBody) {
 			fail("body-mismatch", "step %d: reply body is not the expected %s bytes (len %d vs %d, first difference at %d)", i,
-				map[bool]string{true: "clear", false: "obfuscated"}[c.Flags&model.FlagUnencrypted != 0], len(got.Body), len(wantBody), firstDiff(got.Body, wantBody))
+				map[bool]string{true: "clear", false: "obfuscated"}[rh.Flags&model.FlagUnencrypted != 0], len(got.Body), len(wantBody), firstDiff(got.Body, wantBody))
 		}
 		seq += 2
 	}
